@@ -148,6 +148,27 @@ def check_catalog(ctx, case):
         ctx.violation("catalog:delta2_not_fraction_le", {"sizes": sizes, "n": n, "got": d2, "want": w2})
     if list(o.value.test_distribution) != sizes or o.value.observed_statistic != n:
         ctx.violation("catalog:distribution_or_statistic_wrong", {"td": list(o.value.test_distribution)[:10], "obs": o.value.observed_statistic})
+    # a second N-test on the same forecast object after its catalogs shrink (filters switched on): the distribution is that of
+    # the catalogs the forecast yields now, not the remembered sizes of the first pass
+    keepm = case.get("keep_every")
+    if keepm:
+        cats2 = [S.catalog(region, obs=[(0, 0 if (j % keepm) else S.nm - 1) for j in range(sz)], name="c") for sz in sizes]
+        cf2 = CatalogForecast(catalogs=cats2, n_cat=len(cats2), region=region, start_time=G.T0, end_time=G.T1, name="cf")
+        obs_cat = S.catalog(region, obs=[(0, S.nm - 1)] * n)
+        o1 = call(CE.number_test, cf2, obs_cat, verbose=False)
+        cf2.filters = ["magnitude >= %r" % S.edges[-1]]
+        cf2.apply_filters = True
+        o2 = call(CE.number_test, cf2, obs_cat, verbose=False)
+        if S.nm >= 2 and o1.ok and o2.ok:
+            want2 = [len([j for j in range(sz) if j % keepm == 0]) for sz in sizes]
+            if list(o2.value.test_distribution) != want2:
+                ctx.violation("catalog:second_test_uses_stale_sizes", {"first": list(o1.value.test_distribution)[:10], "second": list(o2.value.test_distribution)[:10], "want": want2[:10]})
+            else:
+                J2 = len(want2)
+                if float(o2.value.quantile[0]) != float(Fraction(sum(1 for x in want2 if x >= n), J2)) or float(o2.value.quantile[1]) != float(Fraction(sum(1 for x in want2 if x <= n), J2)):
+                    ctx.violation("catalog:second_test_quantile_wrong", {"got": list(o2.value.quantile)})
+        elif not (o1.ok and o2.ok):
+            ctx.unexpected(o1 if not o1.ok else o2, "catalog_number_test_twice")
 
 
 def nontrivial(case):
@@ -167,7 +188,7 @@ def cases(draw):
     if kind == "catalog":
         sizes = draw(st.lists(st.one_of(st.integers(0, 6), st.integers(0, 60)), min_size=1, max_size=25))
         n = draw(st.one_of(st.sampled_from(sizes), st.integers(0, 70)))
-        return {"k": "catalog", "setup": setup, "sizes": sizes, "n": n}
+        return {"k": "catalog", "setup": setup, "sizes": sizes, "n": n, "keep_every": draw(st.sampled_from([0, 2, 3]))}
     mu = float("%.6g" % 10 ** draw(st.floats(-6, 5)))
     hist = draw(st.lists(st.floats(0.01, 100).map(lambda x: float("%.4g" % x)), max_size=3))
     eff = mu * (hist[-1] if hist else 1.0)
